@@ -29,7 +29,7 @@ EXPLANATION = ('Codec kernels proved for all inputs: each iteration of runlength
 TRUSTED = ['bytes.index summary (least index)', 'struct.pack/unpack are mutually inverse per format code',
            'lzma module (payload compression)']
 UNVERIFIED = ['cross-referenced lump writers beyond the bounded family', 'float32 rounding of coordinates']
-TIMEOUT_MS = {'quick': 20000, 'thorough': 120000}
+TIMEOUT_MS = {'quick': 60000, 'thorough': 240000}
 
 
 @native
